@@ -333,3 +333,58 @@ Proof.
   unfold outer. induction x as [|a x IH]; cbn; numR; [lra|].
   rewrite sumf_app, sumf_map_mul, IH. lra.
 Qed.
+
+(* ---------- several axes: every rank, every list of valid axes ---------- *)
+Lemma prodn_app (a b : list nat) : prodn (a ++ b) = (prodn a * prodn b)%nat.
+Proof.
+  induction a as [|x a IH]; cbn [app].
+  - change (prodn []) with 1%nat. lia.
+  - change (prodn (x :: a ++ b)) with (x * prodn (a ++ b))%nat.
+    change (prodn (x :: a)) with (x * prodn a)%nat. rewrite IH. apply Nat.mul_assoc.
+Qed.
+Lemma prodn_split (s : list nat) ax : (ax < length s)%nat ->
+  prodn s = (outer_of s ax * (nth ax s 0%nat * inner_of s ax))%nat.
+Proof.
+  intros Hax. unfold outer_of, inner_of.
+  rewrite <- (firstn_skipn ax s) at 1. rewrite prodn_app. f_equal.
+  assert (Hs : skipn ax s = nth ax s 0%nat :: skipn (S ax) s).
+  { revert ax Hax. induction s as [|x s IH]; intros [|ax] Hax; cbn in *; try lia; auto. apply IH. lia. }
+  rewrite Hs. reflexivity.
+Qed.
+Lemma prodn_remove (s : list nat) ax : prodn (remove_ax s ax) = (outer_of s ax * inner_of s ax)%nat.
+Proof. unfold remove_ax, outer_of, inner_of. apply prodn_app. Qed.
+Lemma remove_ax_length (s : list nat) ax : (ax < length s)%nat -> length (remove_ax s ax) = (length s - 1)%nat.
+Proof.
+  intros Hax. unfold remove_ax. rewrite app_length, firstn_length, skipn_length. lia.
+Qed.
+
+(* add.reduce over ANY list of axes (each valid for the shape it is applied
+   to, e.g. distinct axes in decreasing order): the result has the size of the
+   remaining shape and the same total -- in particular reducing all axes gives
+   the sum of all entries. *)
+Fixpoint axes_valid (rank : nat) (axes : list nat) : Prop :=
+  match axes with
+  | [] => True
+  | ax :: rest => (ax < rank)%nat /\ axes_valid (rank - 1) rest
+  end.
+Lemma reduce_axes_add_total : forall (axes : list nat) (shape : list nat) (d : list R) shape' d',
+  axes_valid (length shape) axes ->
+  length d = prodn shape ->
+  reduce_axes BAdd shape axes d = Some (shape', d') ->
+  length d' = prodn shape' /\ sumf d' = sumf d
+  /\ length shape' = (length shape - length axes)%nat.
+Proof.
+  induction axes as [|ax rest IH]; intros shape d shape' d' Hv Hl Hr; cbn in Hr.
+  - inversion Hr; subst. repeat split; auto. cbn. lia.
+  - destruct Hv as [Hax Hv].
+    destruct (reduce_axis BAdd shape ax d) as [d1|] eqn:E1; try discriminate.
+    unfold reduce_axis in E1.
+    pose proof (prodn_split shape ax Hax) as Hsplit. rewrite Hsplit in Hl.
+    pose proof (reduce_ax_length _ _ _ _ _ _ Hl E1) as Hl1.
+    pose proof (reduce_add_preserves_sum _ _ _ _ _ Hl E1) as Hs1.
+    rewrite <- prodn_remove in Hl1.
+    rewrite <- (remove_ax_length shape ax Hax) in Hv.
+    destruct (IH _ _ _ _ Hv Hl1 Hr) as (Hl' & Hs' & Hn').
+    repeat split; auto; try congruence.
+    rewrite Hn', remove_ax_length by exact Hax. cbn [length]. lia.
+Qed.
